@@ -552,6 +552,10 @@ func Gen(t *rapid.T, o Opts) Module {
 		if !o.NoGenerics && g.intn("namedinst", 0, 4) == 0 {
 			if it, ok := g.named(1, func(ti TypeInfo) bool { return ti.Kind == "iface" && ti.Arity > 0 }); ok {
 				p.Ifaces = append(p.Ifaces, Iface{Name: "Inst", InstOf: &it})
+				if g.intn("aliasinst", 0, 1) == 0 {
+					it2 := it
+					p.Ifaces = append(p.Ifaces, Iface{Name: "InstAlias", InstOf: &it2, Alias: true})
+				}
 			}
 		}
 		// aliases used by the source file for its imports
